@@ -296,7 +296,7 @@ def run_check(spec, pid, tier, seed, replay_sig=None):
         with ThreadPoolExecutor(max_workers=min(nshards, NCPU)) as ex:
             futs = [ex.submit(run_probe, pid, tier, seed, i, nshards, rundir, extra, timeout, spec.get("journal") or False) for i in range(nshards)]
             shard_results = [f.result() for f in futs]
-        parse_outputs(pid, shard_results, res, keep_recs=bool(spec.get("offline")))
+        parse_outputs(pid, shard_results, res, keep_recs=bool(spec.get("offline")) and spec.get("recs_in_memory", True))
     distinct = count_distinct([h for sr in shard_results for h in (sr["hashes"] if isinstance(sr["hashes"], list) else [sr["hashes"]])])
     # the hash files are only needed for the distinct count (they are by far the largest scratch files)
     for sr in shard_results:
